@@ -15,20 +15,20 @@ CHECKS = {
          "F1-F3 (resident attach/detach without register) are recorded findings: property refuted on the class, recorded behaviour confirmed, everything outside confirmed"),
  "C04": ("X", "4.C04", "every add/remove/lookup step from every state of <= 4 residents with identity snapshot on each rejected path, symbolic extents/positions for placement in continuous and grid arithmetic, real grid worlds, bounded histories",
          "float positions are covered by the K obligations of C08 (place_fp)"),
- "C05": ("X", "4.C05", "one timestep in which 1-2 symbolic systems remove themselves/others or register new systems of any priority, against reference semantics over the start-of-timestep queue",
+ "C05": ("X", "4.C05", "one timestep in which 1-2 symbolic systems remove themselves/others, replace a system under the same id, re-register the same object or register new systems of any priority - driven as single steps or one execute(2), optionally while every system also steps another model - against reference semantics over the start-of-timestep queue",
          "<= 4 systems, <= 2 structural actions per timestep"),
  "C06": ("X", "4.C06", "completion at any queue position and timestep; ONE later request of each kind from ANY completed model (inductive step covers every later history); batch/search runners stop at min(limit, completion)",
          "<= 4 systems; Model._status is only reachable through complete()"),
- "C07": ("X", "4.C07", "2-safety non-interference: picks/shuffles equal an oracle over the model's own symbolic stream while every global generator and every set-iteration order is havocked by independent symbolic streams; seed plumbing of Model.__init__ for every seed",
-         "determinism of random.Random itself, PYTHONHASHSEED effects on str hashing and process identity are outside (ambient interpreter state)"),
+ "C07": ("X", "4.C07", "2-safety non-interference: picks/shuffles equal an oracle over the model's own symbolic stream while every global generator and every set-iteration order is havocked by independent symbolic streams, also after the environment changed owner, after complete() and with another model active; seed plumbing of Model.__init__ and of the batch/search runners for every seed; system order after removals under pinned hash seeds",
+         "determinism of random.Random itself and process identity are outside (ambient interpreter state); PYTHONHASHSEED is enumerated (pinned per partition), not symbolic"),
  "C08": ("X+K", "4.C08", "move/move_to/add_agent decided for all integer extents, positions, deltas (wrap and clamp, continuous and grid offset, real Line/Grid/DiscreteWorld objects); on IEEE doubles the clamp, bounds and placement kernels are lifted from source and decided on Float64",
          "float wrapping (%) is outside: no tractable encoding; NaN/inf excluded"),
  "C09": ("K+X", "4.C09", "id injectivity and range for ALL shapes (non-linear, no shape bound) on the formula lifted from source; table inverse per concrete shape through the real pandas table; get_cell range test and row selection",
          "pandas positional row access (iloc) is trusted/stubbed by a list-backed stand-in"),
  "C10": ("K+X", "4.C10", "Moore/von Neumann neighbour lists lifted from source with loops unrolled 2R+1 times: exact membership (count of a symbolic probe cell), ascending order, id form == coordinate form, for all extents with radius <= R or all radii with extents <= 2R+1; unwinding assertions discharged",
          "radius bound R = 2/4; wrapping excluded by the property"),
- "C11": ("X", "4.C11", "generator kernels: callable evaluated once per cell in id order with that cell's coordinates; ConstantGenerator; LookupGenerator on tables of the world's dimensionality (finding F4 for 1-D/2-D worlds)",
-         "pandas storage semantics (copy on assignment, drop) are C-level and outside; only the generator kernels are decided"),
+ "C11": ("X", "4.C11", "every source kind (callable, nesting callable, list with solver-chosen mixed element kinds, ndarray, ConstantGenerator with scalar/sequence constants) stores each cell's own value and is independent of later changes to the caller's list/array; add/remove histories over two same-shaped worlds built by the real constructors; LookupGenerator on tables of the world's dimensionality (finding F4 for 1-D/2-D worlds)",
+         "decided relative to a stand-in implementing pandas' documented contract for the five DataFrame operations ECAgent uses (worst case where the contract leaves a choice: an assigned ndarray may be aliased); pandas' own internals are outside"),
  "C12": ("X+K", "4.C12", "exact box membership, join order and [] for 1-2(+1) agents with all positions, query points and four leeways symbolic ints; real-valued box on the lifted source (K); known finding F5 (no seam-aware matching) decided on its class",
          "double rounding at box faces is outside (Float64 lemma does not finish)"),
  "C13": ("X", "4.C13", "template and tag filters exact for <= 3 agents with symbolic component subsets and unbounded tags (0 included); pick = spec[r mod k] and shuffle = Fisher-Yates for a symbolic generator stream; histories with every query pattern",
